@@ -617,3 +617,483 @@ theorem fields_wa : (fs : Fields) → fs.wf = true → ∀ (l : Option Bool) (se
       obtain ⟨rfl, _⟩ := hv'
       exact fields_wa rest hwf.2 _ _ hrest path _ s1 (hv.snoc_list fname vs) hfr1
 end
+
+/-! ## messages -/
+
+theorem decodeArea_wc (tb : MsgTables) (enc : Bool) (t : Ty) (hwt : t.wf = true) (hwe : tb.encParam.wf = true)
+    (hat : areaTotal tb.encParam t = true) (path : Path) (s : St) (hfr : Fresh s.scs s.pos) :
+    WC s (decodeArea false tb enc t path s) := by
+  simp only [areaTotal, Bool.and_eq_true] at hat
+  obtain ⟨⟨htot, hok⟩, hv⟩ := hat
+  unfold decodeArea
+  by_cases hc : (enc && t.isParams) = true
+  · simp only [hc, if_true]
+    cases henc : encVariant tb.encParam t with
+    | none => simp only []; exact (decode_wa t hwt htot path none s (fun _ => hok) hfr).1
+    | some nf =>
+      obtain ⟨name, fs⟩ := nf
+      simp only [henc] at hv
+      simp only []
+      apply WC.of_emit
+      exact ((fields_wa fs (encVariant_wf hwe hwt henc) none [] hv path [] _ VOK.nil
+        (by simpa [emitM, emit] using hfr)).1).bind fun vals t' _ => WC.ok _ _
+  · simp only [hc, Bool.false_eq_true, if_false]
+    exact (decode_wa t hwt htot path none s (fun _ => hok) hfr).1
+
+/-! ### what a session looks like once decoded (for `is_parameter_encryption`) -/
+
+/-- `v` is what some successful warn-mode decode of `t` returned -/
+def SessVal (t : Ty) (v : Val) : Prop := ∃ path s s', decode false t path none s = .ok (v, s')
+
+/-- the field loop only appends to the values decoded so far -/
+theorem decodeFields_ext : ∀ (fs : Fields) (path : Path) (vals0 vals : List (String × Val)) (s s' : St),
+    decodeFields false fs path vals0 s = .ok (vals, s') → ∃ more, vals = vals0 ++ more
+  | .nil, _, vals0, vals, s, s', h => by
+    simp only [decodeFields, Except.ok.injEq, Prod.mk.injEq] at h; exact ⟨[], by simp [h.1]⟩
+  | .cons f' k' t' rest', path, vals0, vals, s, s', h => by
+    simp only [decodeFields] at h
+    obtain ⟨v', s1', _, h2'⟩ := bind_ok_inv h
+    obtain ⟨more, hm⟩ := decodeFields_ext rest' path _ _ _ _ h2'
+    exact ⟨(f', v') :: more, by rw [hm]; simp⟩
+
+theorem decodeFields_lookup (n : String) : ∀ (fs : Fields) (path : Path) (vals0 vals : List (String × Val)) (s s' : St) (p : Prim),
+    fs.firstPrim n = some p → lookupVal vals0 n = none → decodeFields false fs path vals0 s = .ok (vals, s') →
+    ∃ x, lookupVal vals n = some (.int p.name x)
+  | .nil, _, _, _, _, _, _, hp, _, _ => by simp [Fields.firstPrim] at hp
+  | .cons f kind t rest, path, vals0, vals, s, s', p, hp, h0, h => by
+    simp only [decodeFields] at h
+    obtain ⟨v, s1, h1, h2⟩ := bind_ok_inv h
+    simp only [Fields.firstPrim] at hp
+    by_cases hfe : f = n
+    · simp only [hfe, if_true] at hp
+      cases kind with
+      | plain =>
+        cases t with
+        | prim q =>
+          simp only [Option.some.injEq] at hp
+          subst hp
+          simp only [decodeFieldWith, decode] at h1
+          obtain ⟨x, rfl, _⟩ := readPrim_warn_val h1
+          obtain ⟨more, hm⟩ := decodeFields_ext rest path _ _ _ _ h2
+          refine ⟨x, ?_⟩
+          rw [hm]
+          simp only [lookupVal, Option.map_eq_none_iff, List.find?_eq_none] at h0
+          simp only [lookupVal, List.find?_append, hfe]
+          have : List.find? (fun x => x.1 == n) vals0 = none := List.find?_eq_none.mpr h0
+          simp [this]
+        | _ => simp at hp
+      | _ => simp at hp
+    · simp only [hfe, if_false] at hp
+      refine decodeFields_lookup n rest path _ vals s1 s' p hp ?_ h2
+      simp only [lookupVal, Option.map_eq_none_iff, List.find?_eq_none] at h0 ⊢
+      intro x hx
+      simp only [List.mem_append, List.mem_singleton] at hx
+      rcases hx with hx | rfl
+      · exact h0 x hx
+      · simpa using hfe
+
+theorem sessionFlag_okw {t : Ty} {flag : String} (hok : sessOk t flag = true) {v : Val} (h : SessVal t v) :
+    ∃ b, sessionFlag t flag v = .ok b := by
+  obtain ⟨path, s, s', h⟩ := h
+  cases t with
+  | struct name isP sfs =>
+    simp only [sessOk] at hok
+    split at hok
+    · rename_i p p' hfp hfind
+      simp only [decode] at h
+      obtain ⟨vals, s1, hf, h2⟩ := bind_ok_inv h
+      simp only [Except.ok.injEq, Prod.mk.injEq] at h2
+      obtain ⟨rfl, _⟩ := h2
+      obtain ⟨x, hx⟩ := decodeFields_lookup "sessionAttributes" sfs path [] vals _ s1 p hfp (by simp [lookupVal]) hf
+      cases hm : p'.masks.find? (·.1 == flag) with
+      | none => simp [hm] at hok
+      | some nm =>
+        obtain ⟨_, m⟩ := nm
+        exact ⟨(x.toNat &&& m != 0), by simp only [sessionFlag, hx, hfind, hm]⟩
+    · simp at hok
+  | _ => simp [sessOk] at hok
+
+theorem anyFlag_okw {t : Ty} {flag : String} (hok : sessOk t flag = true) :
+    ∀ (vs : List Val), (∀ v ∈ vs, SessVal t v) → ∃ b, anyFlag t flag vs = .ok b
+  | [], _ => ⟨false, rfl⟩
+  | v :: vs, h => by
+    obtain ⟨fb, hfb⟩ := sessionFlag_okw hok (h v (by simp))
+    obtain ⟨rb, hrb⟩ := anyFlag_okw hok vs (fun u hu => h u (by simp [hu]))
+    cases fb with
+    | true => exact ⟨true, by simp [anyFlag, hfb]⟩
+    | false => exact ⟨rb, by simp [anyFlag, hfb, hrb]⟩
+
+/-- the value of a session area in warn mode: abandoned (`None`) or a list of decoded sessions -/
+def AreaVal (t : Ty) (v : Val) : Prop := v = .none ∨ ∃ vs, v = .list vs ∧ ∀ a ∈ vs, SessVal t a
+
+theorem areaFlag_okw {t : Ty} {flag : String} (hok : sessOk t flag = true) {area : Val} (h : AreaVal t area) :
+    ∃ b, areaFlag t flag area = .ok b := by
+  rcases h with rfl | ⟨vs, rfl, hvs⟩
+  · exact ⟨false, rfl⟩
+  · exact anyFlag_okw hok vs hvs
+
+theorem sizedLoop_val (t : Ty) (path : Path) (cid : Nat) : ∀ (fuel i : Nat) (acc : List Val) (s s' : St) (v : Val),
+    (∀ a ∈ acc, SessVal t a) → sizedLoop false t path cid fuel i acc s = .ok (v, s') → AreaVal t v := by
+  intro fuel
+  induction fuel with
+  | zero => intro i acc s s' v _ h; simp [sizedLoop, crash] at h
+  | succ n ih =>
+    intro i acc s s' v hacc h
+    unfold sizedLoop at h
+    split at h
+    · simp [crash] at h
+    · split at h
+      · simp [crash] at h
+      · split at h
+        · cases hd : decode false t (elemPath path i) none s with
+          | ok vs =>
+            obtain ⟨ev, s1⟩ := vs
+            rw [hd] at h
+            simp only [ownCatch] at h
+            refine ih (i+1) (acc ++ [ev]) s1 s' v ?_ h
+            intro a ha
+            simp only [List.mem_append, List.mem_singleton] at ha
+            rcases ha with ha | rfl
+            · exact hacc a ha
+            · exact ⟨_, _, _, hd⟩
+          | error es =>
+            obtain ⟨e, t1⟩ := es
+            rw [hd] at h
+            cases e with
+            | exceeded cid' cp m a vv b =>
+              simp only [ownCatch, Bool.false_or] at h
+              split at h
+              · simp at h
+              · simp only [Except.ok.injEq, Prod.mk.injEq] at h
+                exact Or.inl h.1.symm
+            | _ => simp [ownCatch] at h
+        · obtain ⟨_, s1, _, h2⟩ := bind_ok_inv h
+          simp only [Except.ok.injEq, Prod.mk.injEq] at h2
+          exact Or.inr ⟨acc, h2.1.symm, hacc⟩
+
+/-- the session loop inside its region `cid` (the last one opened, with `fuel` at least the room left in it + 1):
+no internal error — in particular the loop's bound is never hit, because every completed session is charged to the region —
+and afterwards the region is gone, the enclosing ones charged exactly the bytes consumed -/
+theorem sizedLoop_wc (t : Ty) (hwt : t.wf = true) (htot : t.total = true) (hok : t.okNoSel = true)
+    (hne : t.nonEmpty = true) (path : Path) (cid : Nat) :
+    ∀ (fuel i : Nat) (acc : List Val) (s : St) (pre : List SC) (c : SC) (m : Nat), s.scs = pre ++ [c] → c.id = cid →
+    (∀ d ∈ pre, d.id ≠ cid) → c.max = some m → Fresh s.scs s.pos → (m - c.already) + 1 ≤ fuel →
+    WC { s with scs := pre } (sizedLoop false t path cid fuel i acc s) := by
+  intro fuel
+  induction fuel with
+  | zero => intro i acc s pre c m _ _ _ _ _ hf; omega
+  | succ n ih =>
+    intro i acc s pre c m hs hc hpre hm hfr hf
+    unfold sizedLoop
+    rw [hs, findSC_last cid pre c hc hpre]
+    simp only [hm]
+    by_cases hlt : c.already < m
+    · rw [if_pos hlt]
+      obtain ⟨⟨hp, hn, hmm⟩, hadv⟩ := decode_wa t hwt htot (elemPath path i) none s (fun _ => hok) hfr
+      cases hr : decode false t (elemPath path i) none s with
+      | ok vs =>
+        obtain ⟨v, s1⟩ := vs
+        rw [hr] at hp hmm
+        simp only [stOf] at hp hmm
+        have hk := hadv v s1 hr
+        have hml := nonEmpty_minLen hne
+        simp only [ownCatch]
+        rw [hs, bump_append] at hmm
+        have hfr1 : Fresh s1.scs s1.pos := WC.fresh (s := s) (a := v) (by rw [← hr]; exact (decode_wa t hwt htot (elemPath path i) none s (fun _ => hok) hfr).1) hfr
+        have hrec := ih (i+1) (acc ++ [v]) s1 (bump pre (s1.pos - s.pos)) (c.bump (s1.pos - s.pos)) m hmm
+          (by simpa [SC.bump] using hc) (bump_ids hpre) (by simpa [SC.bump] using hm) hfr1 (by simp only [SC.bump]; omega)
+        have hstart : WC { s with scs := pre } (.ok (v, { s1 with scs := bump pre (s1.pos - s.pos) }) : R Val) :=
+          ⟨by simp only [stOf]; omega, NC.ok _ _, by simp only []⟩
+        have := WC.bind (f := fun (_ : Val) (_ : St) => sizedLoop false t path cid n (i+1) (acc ++ [v]) s1) hstart (fun _ t ht => by
+          simp only [Except.ok.injEq, Prod.mk.injEq] at ht
+          obtain ⟨_, rfl⟩ := ht
+          exact hrec)
+        exact this
+      | error es =>
+        obtain ⟨e, t1⟩ := es
+        rw [hr] at hp hmm hn
+        simp only [stOf] at hp hmm
+        by_cases hex : ∃ cid' cp m' a v b, e = .exceeded cid' cp m' a v b
+        · obtain ⟨cid', cp, m', a, v, b, rfl⟩ := hex
+          obtain ⟨prx, c', post, hdec, hcid, hscs⟩ := hmm cid' cp m' a v b rfl
+          rw [hs] at hdec
+          rcases snoc_split hdec with ⟨_, hprx, hcc⟩ | ⟨post', _, hl⟩
+          · subst hcc
+            rw [hc] at hcid
+            subst hcid
+            simp only [ownCatch, Bool.false_or, bne_self_eq_false, Bool.false_eq_true, if_false]
+            refine ⟨by simp only [stOf, emitW, emit]; omega, NC.ok _ _, ?_⟩
+            simp only [emitW, emit]
+            rw [hscs, hprx]
+          · have hne' : cid' ≠ cid := by rw [← hcid]; exact hpre c' (by rw [hl]; simp)
+            have hb : (cid' != cid) = true := by simpa using hne'
+            simp only [ownCatch, Bool.false_or, hb, if_true]
+            refine ⟨by simp only [stOf]; omega, hn, ?_⟩
+            intro cid2 cp2 m2 a2 v2 b2 he
+            simp only [Err.exceeded.injEq] at he
+            obtain ⟨rfl, _⟩ := he
+            exact ⟨prx, c', post', hl, hcid, hscs⟩
+        · have hoc : ∀ k, (ownCatch false cid (.error (e, t1)) k) = .error (e, t1) := by
+            intro k
+            cases e <;> first | rfl | (exfalso; exact hex ⟨_, _, _, _, _, _, rfl⟩)
+          rw [hoc]
+          refine ⟨by simp only [stOf]; omega, hn, ?_⟩
+          intro cid2 cp2 m2 a2 v2 b2 he
+          exact absurd ⟨cid2, cp2, m2, a2, v2, b2, he⟩ hex
+    · rw [if_neg hlt]
+      rw [removeSC_last cid pre c hc hpre]
+      exact (assertDoneSC_wc c { s with scs := pre } m hm).bind fun _ t' _ => WC.ok _ _
+
+theorem decodeSized_wc (t : Ty) (hwt : t.wf = true) (htot : t.total = true) (hok : t.okNoSel = true)
+    (hne : t.nonEmpty = true) (path : Path) (cid : Nat) (s : St) (pre : List SC) (c : SC) (m : Nat)
+    (hs : s.scs = pre ++ [c]) (hc : c.id = cid) (hpre : ∀ d ∈ pre, d.id ≠ cid) (hm : c.max = some m) (hfr : Fresh s.scs s.pos) :
+    WC { s with scs := pre } (decodeSized false t path cid s) := by
+  unfold decodeSized
+  simp only []
+  refine sizedLoop_wc t hwt htot hok hne path cid _ 0 [] (emitM ⟨path, .listOf t.name, none, "", 0⟩ s) pre c m
+    (by simpa [emitM, emit] using hs) hc hpre hm (by simpa [emitM, emit] using hfr) ?_
+  simp only [emitM, emit, sizedFuel, hs, findSC_last cid pre c hc hpre, hm, Option.getD_some]
+  omega
+
+theorem decodeSized_val (t : Ty) (path : Path) (cid : Nat) (s s' : St) (v : Val)
+    (h : decodeSized false t path cid s = .ok (v, s')) : AreaVal t v := by
+  unfold decodeSized at h
+  exact sizedLoop_val t path cid _ 0 [] _ s' v (by intro a ha; cases ha) h
+
+/-! ### commands -/
+
+/-- the only open region is the message's own -/
+def Sole (id : Nat) (mx : Option Nat) (scs : List SC) : Prop := ∃ c, scs = [c] ∧ c.id = id ∧ c.max = mx
+
+theorem Sole.bump {id : Nat} {mx : Option Nat} {scs : List SC} (h : Sole id mx scs) (k : Nat) : Sole id mx (bump scs k) := by
+  obtain ⟨c, rfl, h1, h2⟩ := h
+  exact ⟨c.bump k, rfl, h1, h2⟩
+
+theorem Sole.own {id : Nat} {mx : Option Nat} {scs : List SC} (h : Sole id mx scs) (id2 : Nat) : ∀ d ∈ scs, d.id = id ∨ d.id = id2 := by
+  obtain ⟨c, rfl, h1, _⟩ := h
+  intro d hd; simp only [List.mem_singleton] at hd; subst hd; exact Or.inl h1
+
+theorem Sole.fresh {id pos : Nat} {mx : Option Nat} {scs : List SC} (h : Sole id mx scs) (hp : id ≤ pos) : Fresh scs pos := by
+  obtain ⟨c, rfl, h1, _⟩ := h
+  exact fresh_one _ _ (by omega)
+
+theorem Sole.of_ok {α : Type} {id : Nat} {mx : Option Nat} {s t : St} {a : α} (h : Sole id mx s.scs) (hw : WC s (.ok (a, t) : R α)) :
+    Sole id mx t.scs := by rw [hw.2.2]; exact h.bump _
+
+theorem setListed_one {id : Nat} {mx : Option Nat} {s : St} (h : Sole id mx s.scs) (cpath : Path) (n : Nat) :
+    ∃ t, setListed false id cpath n s = .ok ((), t) ∧ t.pos = s.pos ∧ Sole id (some n) t.scs := by
+  obtain ⟨c, hc, h1, _⟩ := h
+  unfold setListed anticipateM
+  simp only []
+  split
+  · exact ⟨_, rfl, rfl, ⟨{ c with path := cpath, max := some n }, by simp [hc, h1], h1, rfl⟩⟩
+  · simp only [Bool.false_eq_true, if_false]
+    exact ⟨_, rfl, rfl, ⟨{ c with path := cpath, max := some n }, by simp [emitW, emit, hc, h1], h1, rfl⟩⟩
+
+/-- the values gathered so far hold a session area only as the session loop returned it -/
+def AV (t : Ty) (vals : List (String × Val)) : Prop := ∀ area, lookupVal vals "authorizationArea" = some area → AreaVal t area
+
+theorem AV.nil (t : Ty) : AV t [] := by intro area h; simp [lookupVal] at h
+
+theorem AV.snoc {t : Ty} {vals : List (String × Val)} (h : AV t vals) (k : String) (v : Val)
+    (hk : k = "authorizationArea" → AreaVal t v) : AV t (vals ++ [(k, v)]) := by
+  intro area ha
+  simp only [lookupVal, List.find?_append] at ha
+  cases hf : List.find? (fun x => x.1 == "authorizationArea") vals with
+  | some kv =>
+    simp only [hf, Option.some_or, Option.map_some, Option.some.injEq] at ha
+    exact h area (by simp [lookupVal, hf, ha])
+  | none =>
+    simp only [hf, Option.none_or, List.find?_cons, List.find?_nil] at ha
+    by_cases hke : (k == "authorizationArea") = true
+    · simp only [hke, Option.map_some, Option.some.injEq] at ha
+      rw [← ha]; exact hk (by simpa using hke)
+    · simp [hke] at ha
+
+theorem AV.snoc_ne {t : Ty} {vals : List (String × Val)} (h : AV t vals) (k : String) (v : Val)
+    (hk : k ≠ "authorizationArea") : AV t (vals ++ [(k, v)]) := h.snoc k v (fun he => absurd he hk)
+
+/-- what a message walker may end with in warn mode: no internal error; on success at least one byte was consumed and
+the object's session area (if any) is as the session loop returned it -/
+def CM (name : String) (sessTy : Ty) (s0 : St) (r : R Val) : Prop :=
+  NC r ∧ ∀ v s', r = .ok (v, s') → s0.pos + 1 ≤ s'.pos ∧ ∃ vals, v = .obj name false vals ∧ AV sessTy vals
+
+theorem CM.err {name : String} {sessTy : Ty} {s0 t : St} {e : Err} (h : ∀ c m, e ≠ .crash c m) : CM name sessTy s0 (.error (e, t)) :=
+  ⟨NC.error_ne h, fun v s' hh => by cases hh⟩
+
+theorem CM.of_nc {name : String} {sessTy : Ty} {s0 : St} {r : R Val} (h : NC r) (hne : ∀ v s', r ≠ .ok (v, s')) : CM name sessTy s0 r :=
+  ⟨h, fun v s' hh => absurd hh (hne v s')⟩
+
+/-- `except SizeConstraintExceededError` of a message: every overrun that can reach it is one of its own two regions,
+and what it returns then is the object built from the values gathered so far -/
+theorem mc_cm {name : String} {sessTy : Ty} {id1 id2 : Nat} {vals : List (String × Val)} {s0 s : St} {r : R Val} {k : Val → St → R Val}
+    (hr : WC s r) (hown : ∀ d ∈ s.scs, d.id = id1 ∨ d.id = id2) (hp : s0.pos + 1 ≤ s.pos) (hv : AV sessTy vals)
+    (hk : ∀ v t, r = .ok (v, t) → CM name sessTy s0 (k v t)) : CM name sessTy s0 (msgCatch false id1 id2 name vals r k) := by
+  cases r with
+  | ok vs => obtain ⟨v, t⟩ := vs; simp only [msgCatch]; exact hk v t rfl
+  | error es =>
+    obtain ⟨e, t⟩ := es
+    obtain ⟨hpos, hn, hm⟩ := hr
+    simp only [stOf] at hpos hm
+    by_cases hex : ∃ cid cp m a v b, e = .exceeded cid cp m a v b
+    · obtain ⟨cid, cp, m, a, v, b, rfl⟩ := hex
+      obtain ⟨pre, c, post, hdec, hcid, _⟩ := hm cid cp m a v b rfl
+      have hc := hown c (by rw [hdec]; simp)
+      rw [hcid] at hc
+      have : (cid != id1 && cid != id2) = false := by rcases hc with rfl | rfl <;> simp
+      simp only [msgCatch, Bool.false_or, this, Bool.false_eq_true, if_false]
+      refine ⟨NC.ok _ _, fun v' s' hh => ?_⟩
+      simp only [Except.ok.injEq, Prod.mk.injEq] at hh
+      obtain ⟨rfl, rfl⟩ := hh
+      exact ⟨by simp only [emitW, emit]; omega, vals, rfl, hv⟩
+    · have hoc : msgCatch false id1 id2 name vals (.error (e, t)) k = .error (e, t) := by
+        cases e <;> first | rfl | (exfalso; exact hex ⟨_, _, _, _, _, _, rfl⟩)
+      rw [hoc]
+      exact ⟨fun c m t' hh => hn c m t' hh, fun v s' hh => by cases hh⟩
+
+/-- the first field of a message is read while the message's region has no limit yet: it cannot be overrun -/
+theorem first_cm {name : String} {sessTy : Ty} {id1 id2 : Nat} {p : Prim} {path : Path} {s0 s : St} {k : Val → St → R Val}
+    (hone : Sole id1 none s.scs) (hk : ∀ v t, readPrim false p path s = .ok (v, t) → CM name sessTy s0 (k v t)) :
+    CM name sessTy s0 (msgCatch false id1 id2 name [] (readPrim false p path s) k) := by
+  cases hr : readPrim false p path s with
+  | ok vs => obtain ⟨v, t⟩ := vs; simp only [msgCatch]; exact hk v t hr
+  | error es =>
+    obtain ⟨e, t⟩ := es
+    have hn : NC (readPrim false p path s) := readPrim_ncw p path s
+    rw [hr] at hn
+    by_cases hex : ∃ cid cp m a v b, e = .exceeded cid cp m a v b
+    · exfalso
+      obtain ⟨cid, cp, m, a, v, b, rfl⟩ := hex
+      obtain ⟨c, hc, _, hov⟩ := readPrim_exc_over hr
+      obtain ⟨c0, hs, _, hmax⟩ := hone
+      rw [hs] at hc
+      simp only [List.mem_singleton] at hc
+      subst hc
+      simp [SC.over, hmax] at hov
+    · have hoc : msgCatch false id1 id2 name [] (.error (e, t)) k = .error (e, t) := by
+        cases e <;> first | rfl | (exfalso; exact hex ⟨_, _, _, _, _, _, rfl⟩)
+      rw [hoc]
+      exact ⟨fun c m t' hh => hn c m t' hh, fun v s' hh => by cases hh⟩
+
+theorem vInt_of_readPrim {p : Prim} {path : Path} {s t : St} {v : Val} (hu : p.signed = false)
+    (h : readPrim false p path s = .ok (v, t)) : ∃ n : Int, vInt v = some n ∧ ¬ n < 0 := by
+  obtain ⟨x, rfl, hx⟩ := readPrim_warn_val h
+  exact ⟨x, rfl, by have := hx hu; omega⟩
+
+theorem decodeCommand_cm (tb : MsgTables) (ht : tb.total = true) (path : Path) (s0 : St) :
+    CM "Command" tb.authCmd s0 (decodeCommand false tb path s0) := by
+  simp only [MsgTables.total, Bool.and_eq_true, Bool.not_eq_true'] at ht
+  obtain ⟨⟨⟨⟨⟨⟨⟨⟨⟨⟨⟨⟨⟨⟨⟨hw, uCsz⟩, uAsz⟩, _⟩, _⟩, tAuth⟩, okAuth⟩, _⟩, _⟩, sDec⟩, _⟩, _⟩, aCH⟩, aCP⟩, _⟩, _⟩ := ht
+  simp only [MsgTables.wf, Bool.and_eq_true, decide_eq_true_eq] at hw
+  obtain ⟨⟨⟨⟨⟨⟨⟨⟨⟨⟨⟨⟨⟨⟨⟨⟨⟨⟨wTag, hTagPos⟩, wCsz⟩, wCc⟩, wAsz⟩, wAuth⟩, neAuth⟩, _⟩, _⟩, _⟩, _⟩, _⟩, _⟩, _⟩, wEnc⟩, wCH⟩, wCP⟩, _⟩, _⟩ := hw
+  unfold decodeCommand
+  simp only []
+  have hone0 : Sole s0.pos none (emitM ⟨path, .named "Command" false, none, "", 0⟩ { s0 with scs := [⟨s0.pos, [], 0, none⟩] }).scs :=
+    ⟨_, rfl, rfl, rfl⟩
+  -- tag
+  refine first_cm hone0 fun tag s1 e1 => ?_
+  have w1 := readPrim_wc tb.tagCmd (path ++ [⟨"tag", none⟩]) (emitM ⟨path, .named "Command" false, none, "", 0⟩ { s0 with scs := [⟨s0.pos, [], 0, none⟩] })
+  rw [e1] at w1
+  have p1 : s1.pos = s0.pos + tb.tagCmd.size := by simpa [emitM, emit] using readPrim_warn_ok e1
+  have one1 := hone0.of_ok w1
+  -- commandSize
+  refine mc_cm (readPrim_wc tb.cmdSize _ s1) (one1.own _) (by omega) (by intro area h; simp [lookupVal] at h) fun csz s2 e2 => ?_
+  have w2 := readPrim_wc tb.cmdSize (path ++ [⟨"commandSize", none⟩]) s1
+  rw [e2] at w2
+  have one2 := one1.of_ok w2
+  obtain ⟨n, hvi, hn0⟩ := vInt_of_readPrim uCsz e2
+  rw [hvi]
+  simp only []
+  rw [if_neg hn0]
+  obtain ⟨s3, e3, p3, one3⟩ := setListed_one one2 (path ++ [⟨"commandSize", none⟩]) n.toNat
+  rw [e3]
+  simp only [R.bind_ok]
+  have pos2 : s1.pos ≤ s2.pos := w2.1
+  -- commandCode
+  refine mc_cm (readPrim_wc tb.cc _ s3) (one3.own _) (by omega) (by intro area h; simp [lookupVal] at h) fun ccv s4 e4 => ?_
+  have w4 := readPrim_wc tb.cc (path ++ [⟨"commandCode", none⟩]) s3
+  rw [e4] at w4
+  have one4 := one3.of_ok w4
+  have pos4 : s3.pos ≤ s4.pos := w4.1
+  cases hh : lookupTy tb.cmdHandles ((vInt ccv).getD 0) with
+  | none => simp only []; exact CM.err (by intro c m h; cases h)
+  | some hty =>
+    simp only []
+    -- handles
+    have h5 := decodeArea_wc tb false hty (lookupTy_wf wCH hh) wEnc (lookupTy_all aCH hh) (path ++ [⟨"handles", none⟩]) s4
+      (one4.fresh (by omega))
+    refine mc_cm h5 (one4.own _) (by omega) (by intro area h; simp [lookupVal] at h) fun hv s5 e5 => ?_
+    rw [e5] at h5
+    have one5 := one4.of_ok h5
+    have pos5 : s4.pos ≤ s5.pos := h5.1
+    -- the tail: parameters, then the message's own region closes
+    have tail : ∀ (vals : List (String × Val)) (enc : Bool) (s6 : St), Sole s0.pos (some n.toNat) s6.scs → s0.pos + 1 ≤ s6.pos →
+        AV tb.authCmd vals →
+        CM "Command" tb.authCmd s0 (match lookupTy tb.cmdParams ((vInt ccv).getD 0) with
+          | none => (.error (.value (path ++ [(⟨"commandCode", none⟩ : PathNode)]) tb.cc.name ((vInt ccv).getD 0), s6) : R Val)
+          | some pty =>
+            msgCatch false s0.pos (s0.pos + 1) "Command" vals
+              (decodeArea false tb enc pty (path ++ [(⟨"parameters", none⟩ : PathNode)]) s6) fun pv s =>
+              (assertDone false s0.pos s).bind fun _ s => .ok (.obj "Command" false (vals ++ [("parameters", pv)]), s)) := by
+      intro vals enc s6 one6 q6 av6
+      cases hp : lookupTy tb.cmdParams ((vInt ccv).getD 0) with
+      | none => simp only []; exact CM.err (by intro c m h; cases h)
+      | some pty =>
+        simp only []
+        have h7 := decodeArea_wc tb enc pty (lookupTy_wf wCP hp) wEnc (lookupTy_all aCP hp) (path ++ [⟨"parameters", none⟩]) s6
+          (one6.fresh (by omega))
+        refine mc_cm h7 (one6.own _) q6 av6 fun pv s7 e7 => ?_
+        rw [e7] at h7
+        obtain ⟨c7, hs7, hid7, hmax7⟩ := one6.of_ok h7
+        have pos7 : s6.pos ≤ s7.pos := h7.1
+        have had : assertDone false s0.pos s7 = assertDoneSC false c7 { s7 with scs := [] } := by
+          have := assertDone_last (id := s0.pos) (pre := []) (c := c7) (s := s7) (by simpa using hs7) hid7 (by intro d hd; cases hd)
+          exact this
+        rw [had]
+        have hw := assertDoneSC_wc c7 { s7 with scs := [] } n.toNat hmax7
+        refine ⟨hw.2.1.bind fun _ t _ => NC.ok _ _, fun v s' hh => ?_⟩
+        obtain ⟨_, s8, h8, h9⟩ := bind_ok_inv hh
+        simp only [Except.ok.injEq, Prod.mk.injEq] at h9
+        obtain ⟨rfl, rfl⟩ := h9
+        have pos8 := hw.1
+        rw [h8] at pos8
+        simp only [stOf] at pos8
+        exact ⟨by omega, _, rfl, av6.snoc_ne _ _ (by decide)⟩
+    by_cases hsess : (vInt tag == some tb.sessionsTag) = true
+    · rw [if_pos hsess]
+      -- sessions
+      refine mc_cm (readPrim_wc tb.authSize _ s5) (one5.own _) (by omega) (by intro area h; simp [lookupVal] at h) fun asz s6 e6 => ?_
+      have w6 := readPrim_wc tb.authSize (path ++ [⟨"authSize", none⟩]) s5
+      rw [e6] at w6
+      have one6 := one5.of_ok w6
+      have pos6 : s5.pos ≤ s6.pos := w6.1
+      obtain ⟨an, hai, han0⟩ := vInt_of_readPrim uAsz e6
+      rw [hai]
+      simp only []
+      rw [if_neg han0]
+      obtain ⟨s7, e7, hs7, p7⟩ := openRegion_warn (s0.pos + 1) (path ++ [⟨"authSize", none⟩]) an.toNat s6
+      rw [e7]
+      simp only [R.bind_ok]
+      obtain ⟨c6, hc6, hid6, hmax6⟩ := one6
+      have hpre : ∀ d ∈ s6.scs, d.id ≠ s0.pos + 1 := by
+        intro d hd; rw [hc6] at hd; simp only [List.mem_singleton] at hd; subst hd; omega
+      have hfr7 : Fresh s7.scs s7.pos := by
+        rw [hs7, p7]
+        exact fresh_append (by rw [hc6]; exact fresh_one _ _ (by omega)) (by simp only []; omega)
+      have h8 := decodeSized_wc tb.authCmd wAuth tAuth okAuth neAuth (path ++ [⟨"authorizationArea", none⟩]) (s0.pos + 1) s7 s6.scs _
+        an.toNat hs7 rfl hpre rfl hfr7
+      have one7 : Sole s0.pos (some n.toNat) ({ s7 with scs := s6.scs } : St).scs := ⟨c6, hc6, hid6, hmax6⟩
+      refine mc_cm (s := { s7 with scs := s6.scs }) h8 (one7.own _) (by simp only []; omega) (by intro area h; simp [lookupVal] at h)
+        fun area s8 e8 => ?_
+      have hav := decodeSized_val tb.authCmd _ _ s7 s8 area e8
+      rw [e8] at h8
+      have one8 := one7.of_ok h8
+      have pos8 : s7.pos ≤ s8.pos := h8.1
+      obtain ⟨enc, hflag⟩ := areaFlag_okw (flag := "decrypt") sDec hav
+      simp only [hflag]
+      refine tail _ enc s8 one8 (by omega) ?_
+      intro area' h
+      simp [lookupVal] at h
+      rw [← h]; exact hav
+    · rw [if_neg hsess]
+      exact tail _ false s5 one5 (by omega) (by intro area h; simp [lookupVal] at h)
